@@ -611,6 +611,9 @@ class OpsMixin:
         if isinstance(v, RepoCls):
             m = v.ci.find_method(name)
             if m is not None:
+                decos = {ast.unparse(d).split(".")[-1] for d in m.node.decorator_list}
+                if "classmethod" in decos:
+                    return Func(m, m.node, None, bound_self=v, module=m.module, defcls=m.cls)
                 return Func(m, m.node, None, module=m.module, defcls=m.cls)
             ca = v.ci.find_class_attr(name)
             if ca is not None:
